@@ -178,6 +178,28 @@ def job_parallel_plates_shape(res, n, g):
         n2 = n - 3 if n >= 8 else n + 3
         for s2 in run_paths(ex, s1, 'e_parplates', [n2, Fraction(f32(2.7e6)), Fraction(f32(1e12)), Fraction(g)]): shape(s2, n2, ' (second request of the process, after one for %d samples)' % n)
 
+def job_parallel_plates_modes(res, P):
+    """the parallel-plates model sums over the odd plate modes that propagate at the sample's frequency f: p = 1, 3, 5, ... with p*c/(2g) <= f - every one of them, each once (with too few modes the
+    model does not tend to free space for wide gaps).  One positive-frequency sample (n = 3), f chosen so that 2 g f / c = P; the Airy functions are recorded (argument) and return arbitrary finite values."""
+    bld = imp_build(); mod = load_module(bld, IMP_MODS)
+    snap, R, pre = take_snapshot(bld, 'n%d' % 3, [3])
+    ex = Exec(mod, snap, RealDom()); us = []; cnt = [0]
+    def airy(ex_, st, fr, a, ins):
+        cnt[0] += 1; us.append(a[0] if not z3.is_expr(a[0]) else None)
+        v = z3.Real('airy%d' % cnt[0]); st.pc += [v >= -1000000, v <= 1000000]; st.ranges['airy%d' % cnt[0]] = (Fraction(-1000000), Fraction(1000000)); return v
+    for pfx in ('_ZN5boost4math13airy_ai_prime', '_ZN5boost4math13airy_bi_prime', '_ZN5boost4math7airy_ai', '_ZN5boost4math7airy_bi',
+                '_ZN5boost4math6detail17airy_ai_prime_imp', '_ZN5boost4math6detail17airy_bi_prime_imp', '_ZN5boost4math6detail11airy_ai_imp', '_ZN5boost4math6detail11airy_bi_imp'): ex.ext_prefix.append((pfx, airy))
+    g = 0.004; c = 299792458.0; f = P * c / (2 * g); fmax = 2 * f      # n = 3: the one sample below n/2 sits at f_max/2
+    sts = run_paths(ex, State(), 'e_parplates', [3, Fraction(f32(2.7e6)), Fraction(f32(fmax)), Fraction(f32(g))]); account(res, ex, mod, sts)
+    Peff = 2 * f32(g) * (f32(fmax) / 2) / c      # with the float parameters actually passed
+    want = [p for p in range(1, int(math.floor(Peff)) + 1, 2)]
+    vals = sorted({float(u) for u in us if u is not None})
+    ok = None not in us and len(sts) == 1
+    ratios = [math.sqrt(v / vals[0]) for v in vals] if vals else []
+    okm = ok and len(vals) == len(want) and all(abs(r - w) < 1e-3 * w for r, w in zip(ratios, want))
+    res.obs.append(Ob('ParallelPlatesCSR, sample at 2 g f / c = %.3f: the mode sum runs over the odd plate modes %s and no others (Airy arguments seen: %d distinct, as multiples of the first: %s)' % (Peff, want, len(vals), [round(r, 3) for r in ratios]),
+                      'holds' if okm else 'violated', key='parallel-plates-modes', cex=None if okm else {'replay': 'structural', 'P': Peff, 'modes_wanted': want, 'mode_ratios_seen': [round(r, 3) for r in ratios]}))
+
 READ_DATA = '_ZN4vfps9Impedance8readDataENSt7__cxx1112basic_stringIcSt11char_traitsIcESaIcEEE'
 def job_factory_file(res, n, L, gap_sign, wall):
     """makeImpedance with an impedance table (file of L samples, each an arbitrary complex number) alone or on top of analytic contributions:
@@ -284,6 +306,7 @@ def main(tier):
     jobs = [(job_models, (n,)) for n in ns] + [(job_add, (n,)) for n in (3, 8)]
     combos = [(gs, csr, w, c) for gs in (1, -1, 0) for csr in (True, False) for w in (True, False) for c in (True, False)]
     jobs += [(job_factory, (n, gs, csr, w, c)) for n in ((8,) if tier == 'quick' else (8, 9, 3)) for (gs, csr, w, c) in combos]
+    jobs += [(job_parallel_plates_modes, (P,)) for P in ((1.5, 3.4, 5.2) if tier == 'quick' else (0.6, 1.5, 2.5, 3.4, 4.7, 5.2, 7.3))]
     jobs += [(job_parallel_plates_shape, (n, 0.032)) for n in ((8, 9, 5) if tier == 'quick' else (8, 9, 5, 7, 16, 17, 3))]
     import c14 as _c14
     jobs += [(_c14.job_process_state, ())]      # a model's samples must not depend on an earlier request of the process (caches)
